@@ -140,11 +140,11 @@ func TestC10FullState(t *testing.T) {
 								desc["B_clock_offset"] = bOff
 								// sanity of the reference itself: before any exchange each node lists LWW of what it has seen
 								if got, want := a.list().String(), lwwListing(KA).String(); got != want {
-									rep.HarnessError("reference model disagrees before exchange on A: got %s want %s (%v)", got, want, desc)
+									rep.Violate(vk.Violation{Sig: "c10-view-is-not-newest-of-what-was-seen", Msg: fmt.Sprintf("%v: before any exchange A lists %s; the newest entries among its own changes and the gossip it received give %s", desc, got, want), Replay: desc})
 									continue
 								}
 								if got, want := b.list().String(), lwwListing(KB).String(); got != want {
-									rep.HarnessError("reference model disagrees before exchange on B: got %s want %s (%v)", got, want, desc)
+									rep.Violate(vk.Violation{Sig: "c10-view-is-not-newest-of-what-was-seen", Msg: fmt.Sprintf("%v: before any exchange B lists %s; the newest entries among its own changes and the gossip it received give %s", desc, got, want), Replay: desc})
 									continue
 								}
 								// non-trivial: X holds a removal Y has not seen, and >=2 entries of a kind
